@@ -1023,9 +1023,11 @@ class AstEval:
                 mod = sys.modules[arg.module]
         for imp in arg.names:
             if imp.name == "*":
-                for name, value in mod.__dict__.items():
-                    if name[0] != "_":
-                        self.sym_table[name] = value
+                names = getattr(mod, "__all__", None)
+                if names is None:
+                    names = [name for name in mod.__dict__ if name[0] != "_"]
+                for name in names:
+                    self.sym_table[name] = getattr(mod, name)
             else:
                 self.sym_table[imp.name if imp.asname is None else imp.asname] = getattr(mod, imp.name)
 
